@@ -86,6 +86,14 @@ CHECKS.update({
                    note="PARTIAL: the static analysis (taint rules, allow-list of read-only callees) is trusted, not verified; aliasing through data structures outside the two packages is not tracked. " + SYS_NOTE),
 })
 
+CHECKS.update({
+    "C15": dict(
+        technique="Coq proof, PARTIAL (mutual exclusion makes critical sections atomic: every interleaving equals a one-at-a-time execution; hypothesis = C16's lock discipline re-checked on the current tree; system theorems hold for every order of atomic steps) + validation run of the real Run() under the Go race detector with final-state monitors",
+        text="Theorem (Properties/C15.v, Serial.v) over a generic threads-with-one-lock machine; its hypothesis for this program is discharged by the translator-based C16 check on every run. The race-detector run (12 seeded workloads with 30+30 workers, real informers and queues) is a test, not a proof.",
+        note="PARTIAL: data races on memory outside the lock facts' vocabulary and the Go memory model cannot be exhibited by the model; client-go fake clientsets stand in for the API server in the validation run. Trusted: Coq kernel, translator, Go race detector.",
+        ref="§5 C15"),
+})
+
 NOT_APPLICABLE = []
 
 def main():
